@@ -122,24 +122,52 @@ Definition cb_ok (st : sstate) : Prop :=
   length (s_cbPerm st) = n /\
   (s_cb st <> [] -> exists Q, rdesc g root Q /\ target Q = None /\ s_cbPerm st = verts Q).
 
-Definition TPstep (st : sstate) : Prop :=
-  exists anc, stack_ok anc (s_path st) (s_choices st) /\
+(* the predicates of the proof outline, with the stack of nodes explicit ... *)
+Definition TPstepA (anc : list (list acell)) (st : sstate) : Prop :=
+  stack_ok anc (s_path st) (s_choices st) /\
     cur_ok anc (length (s_path st)) (s_skip st) (s_ps st) /\
     (forall top, last_opt (s_path st) = Some top -> top_ok anc (s_choices st) top (s_skip st)) /\
     cb_ok st.
+
+Definition TPtopA (anc : list (list acell)) (st : sstate) (w : bool) : Prop :=
+  TPstepA anc st /\ s_skip st = false /\
+  (w = false -> unflagged (p_cells (s_ps st)) /\ rdesc g root (erase (p_cells (s_ps st)))).
+
+Definition TPjA (anc : list (list acell)) (st : sstate) (j : nat) : Prop :=
+  stack_ok anc (s_path st) (s_choices st) /\
+    cur_ok anc (length (s_path st)) (s_skip st) (s_ps st) /\
+    s_path st <> [] /\ top_ok anc (s_choices st) j (s_skip st) /\ cb_ok st.
+
+(* after a successful step: the current partition is the node on top of the stack with the element
+   of rank j (= last entry of path) of its first bin with more than one element individualised *)
+Definition TPrefA (anc : list (list acell)) (st : sstate) : Prop :=
+  TPstepA anc st /\ s_skip st = false /\
+  exists Pn b c a x j, last_opt anc = Some Pn /\ target (erase Pn) = Some (b, c, a) /\
+    last_opt (s_path st) = Some j /\ nth_error c j = Some x /\
+    erase (p_cells (s_ps st)) = indiv b c a x.
+
+(* ... and hidden *)
+Definition TPstep (st : sstate) : Prop := exists anc, TPstepA anc st.
 
 Definition TPtop (st : sstate) (w : bool) : Prop :=
   TPstep st /\ s_skip st = false /\
   (w = false -> unflagged (p_cells (s_ps st)) /\ rdesc g root (erase (p_cells (s_ps st)))).
 
-Definition TPj (st : sstate) (j : nat) : Prop :=
-  exists anc, stack_ok anc (s_path st) (s_choices st) /\
-    cur_ok anc (length (s_path st)) (s_skip st) (s_ps st) /\
-    s_path st <> [] /\ top_ok anc (s_choices st) j (s_skip st) /\ cb_ok st.
+Definition TPj (st : sstate) (j : nat) : Prop := exists anc, TPjA anc st j.
 
 Definition TPref (st : sstate) : Prop :=
   TPstep st /\ s_skip st = false /\
   exists P b c a x, rdesc g root P /\ target P = Some (b, c, a) /\ In x c /\
     erase (p_cells (s_ps st)) = indiv b c a x.
+
+Lemma TPtopA_top : forall anc st w, TPtopA anc st w -> TPtop st w.
+Proof. intros anc st w (H1 & H2 & H3). split; [exists anc; exact H1|]. split; assumption. Qed.
+
+Lemma TPrefA_ref : forall anc st, TPrefA anc st -> TPref st.
+Proof.
+  intros anc st (H1 & H2 & Pn & b & c & a & x & j & HP & HT & _ & Hx & HE). split; [exists anc; exact H1|].
+  split; [exact H2|]. exists (erase Pn), b, c, a, x. split; [|split; [exact HT|split; [eapply nth_error_In; exact Hx|exact HE]]].
+  destruct H1 as ((HL1 & _ & HNo & _) & _). rewrite last_opt_nth in HP. apply (no_desc _ _ (HNo _ _ HP)).
+Qed.
 
 End InvT.
